@@ -1039,6 +1039,7 @@ type Reader struct {
 	ctx             map[string]any
 	parentCtx       *map[string]any
 	headless        bool
+	err             error // first block decoding error (sticky)
 }
 
 type decodingTask struct {
@@ -1573,6 +1574,11 @@ func (this *Reader) Read(block []byte) (int, error) {
 		return 0, &IOError{msg: "Stream closed", code: kanzi.ERR_READ_FILE}
 	}
 
+	if this.err != nil {
+		// A block failed to decode: the stream cannot be read any further
+		return 0, this.err
+	}
+
 	if err := this.readHeader(); err != nil {
 		return 0, err
 	}
@@ -1608,6 +1614,9 @@ func (this *Reader) Read(block []byte) (int, error) {
 			var err error
 
 			if this.available, err = this.processBlock(); err != nil {
+				// Do not expose the content of a failed batch
+				this.available = 0
+				this.err = err
 				return len(block) - remaining, err
 			}
 
